@@ -339,7 +339,7 @@ def main(argv=None):
     p = sub.add_parser("replay")
     p.add_argument("file")
     s = sub.add_parser("selftest")
-    s.add_argument("what", choices=["determinism", "sensitivity", "setup"])
+    s.add_argument("what", choices=["determinism", "sensitivity", "setup", "benign"])
     s.add_argument("props", nargs="*")
     s.add_argument("--runs", type=int, default=200)
     a = ap.parse_args(argv)
